@@ -126,6 +126,8 @@ NodeBuckets::NodeBuckets(Graph &graph) :
 }
 
 NodesById NodeBuckets::takeLeaves(void) {
+    // In a graph without edges there is no bucket for degree 1, and no leaves.
+    if (m_maxDegree < 1) return NodesById();
     // Make a copy of the bucket of leaves, i.e. nodes of degree 1.
     NodesById leaves(m_buckets[1]);
     // Now can clear the leaf bucket...
